@@ -28,16 +28,16 @@
 EXTENDS PyImport, Alias, Json
 
 CONSTANTS Prop,       \* "C05": fixed schedule load(p); resolve_aliases(), reference runs.  "C06": free schedules
-          Family,     \* which menus / modules (see Present, Menu)
-          Domain,     \* "clean": programs without a recorded defect pattern; "all": every program
+          Families,   \* the families of programs explored by this run (Init picks one): which menus / modules (see Present, Menu)
+          Scale,      \* "quick" | "thorough": selects the statement bound of each family (TotalOf)
+          TotalCap,   \* > 0: overrides the statement bound (used by --replay)
+          Domain,     \* "all": every program (the clauses are claimed for those without a recorded defect pattern);
+                      \* "clean" / "defect": only the programs without / with a recorded defect pattern
           Grain,      \* micro steps merged into one TLC transition (1: every intermediate state is a TLC state)
-          Gen,        \* TRUE: print one CASE record per finished behaviour
-          MaxTotal,   \* bound on the number of statements of a program
-          MaxOps,     \* C06: bound on the number of public calls of a schedule
-          Sched       \* C06: "std": load the relevant packages in any order, optionally resolve in between, then resolve twice;
-                      \*      "free": any sequence of load / resolve_aliases calls within MaxOps
+          Gen         \* TRUE: print one CASE record per finished behaviour
 
-VARIABLES S,          \* implementation state (Alias.tla record + loader fields)
+VARIABLES Family,     \* the family this behaviour belongs to (chosen by Init, never changes)
+          S,          \* implementation state (Alias.tla record + loader fields)
           R,          \* reference state (PyImport.tla record)
           phase,      \* "build" | "py" | "ld" | "probe" | "done"
           bm,         \* build: index into ModOrder of the module being written
@@ -48,7 +48,7 @@ VARIABLES S,          \* implementation state (Alias.tla record + loader fields)
           probes,     \* outcomes of the probe phase: [a (path), id, out = <<final_target outcome, members outcome>>]
           flagsv,     \* the recorded defect patterns the finished program matches (Flags, evaluated once when the build ends)
           proj0       \* Gen: projection of the tree when the schedule ended (before the probes dereference anything)
-vars == <<prog, S, R, phase, bm, ops, crashed, fixbad, lastres, probes, flagsv, proj0>>
+vars == <<Family, prog, S, R, phase, bm, ops, crashed, fixbad, lastres, probes, flagsv, proj0>>
 
 \* =========================================================================================================
 \* Families: which modules exist, in which order they are written, the statement menu of each module
@@ -137,6 +137,24 @@ MaxLen(m) ==
     [] Family \in {"pkg", "pkg-q"} -> (IF m = "p.s.c" THEN 1 ELSE 2)
     [] Family \in {"graph", "graph-q", "fine", "wild", "wild-q", "retarget", "retarget-q"} -> (IF m = "q" THEN 1 ELSE 2)
     [] OTHER -> 2
+
+\* bound on the number of statements of a program, per family and scale
+MaxTotal ==
+  IF TotalCap > 0 THEN TotalCap
+  ELSE IF Scale = "quick"
+       THEN ( CASE Family = "chain-q" -> 3 [] Family = "exports-q" -> 4 [] Family = "pkg-q" -> 3 [] Family = "reexp-q" -> 6
+                [] Family = "graph-q" -> 2 [] Family = "wild-q" -> 3 [] Family = "retarget-q" -> 5 [] Family = "fine" -> 2
+                [] OTHER -> 2 )
+       ELSE ( CASE Family = "chain-q" -> 5 [] Family = "chain" -> 3 [] Family = "exports" -> 5 [] Family = "pkg" -> 4
+                [] Family = "reexp" -> 6 [] Family = "topstar" -> 6
+                [] Family = "graph-q" -> 3 [] Family = "graph" -> 2 [] Family = "wild" -> 3 [] Family = "retarget" -> 6 [] Family = "fine" -> 3
+                [] OTHER -> 3 )
+\* C06 schedules: "std": load the relevant packages in any order, optionally resolve in between, then resolve twice;
+\*                "free": any sequence of load / resolve_aliases calls within MaxOps
+Sched == IF Family = "fine" THEN "free" ELSE "std"
+MaxOps == IF Prop = "C05" THEN 2
+          ELSE IF Family = "fine" THEN (IF Scale = "quick" THEN 3 ELSE 4)
+          ELSE IF Family \in {"graph", "graph-q"} THEN 5 ELSE 3
 
 TotalLen(pr) == LET RECURSIVE sum(_) sum(k) == IF k = 0 THEN 0 ELSE Len(pr[ModOrder[k]]) + sum(k - 1) IN sum(Len(ModOrder))
 
@@ -549,11 +567,13 @@ InitS ==
    seen |-> {}, nt |-> 0, unmod |-> FALSE, hist |-> <<>>, log |-> TRUE, unres |-> {}, iter |-> 0, pout |-> <<>>]
 
 Init ==
+  /\ Family \in Families
   /\ prog = [m \in Mods |-> <<>>]
   /\ S = InitS /\ R = PyInitState(Present)
   /\ phase = "build" /\ bm = 1 /\ ops = <<>> /\ crashed = "" /\ fixbad = FALSE /\ lastres = <<>> /\ probes = <<>> /\ proj0 = <<>> /\ flagsv = {}
 
 AddStmt ==
+  /\ UNCHANGED Family
   /\ phase = "build" /\ bm <= Len(ModOrder)
   /\ LET m == ModOrder[bm] IN
      /\ Len(prog[m]) < MaxLen(m) /\ TotalLen(prog) < MaxTotal
@@ -563,6 +583,7 @@ AddStmt ==
   /\ UNCHANGED <<S, R, phase, bm, ops, crashed, fixbad, lastres, probes, flagsv, proj0>>
 
 NextMod ==
+  /\ UNCHANGED Family
   /\ phase = "build" /\ bm <= Len(ModOrder)
   /\ bm' = bm + 1
   /\ (Prop = "C05" => ModuleOK(prog, ModOrder[bm]))
@@ -577,6 +598,7 @@ NextMod ==
 
 \* the CPython reference runs to completion; a program CPython cannot import is outside the domain
 RunRef ==
+  /\ UNCHANGED Family
   /\ phase = "py"
   /\ LET R1 == PyRun(R, 200) IN
      /\ R' = R1
@@ -621,6 +643,7 @@ AllWantedLoaded == \A pkg \in Wanted : Loaded(S, pkg)
 LastTwoResolve == Len(ops) >= 2 /\ ops[Len(ops)].op = "resolve" /\ ops[Len(ops) - 1].op = "resolve"
 
 StartOp ==       \* a public call begins (the previous one, if any, has returned)
+  /\ UNCHANGED Family
   /\ phase = "ld" /\ S.stack = <<>> /\ crashed = "" /\ Len(ops) < MaxOps
   /\ \/ \E pkg \in Wanted :
           /\ ~Loaded(S, pkg)
@@ -636,6 +659,7 @@ StartOp ==       \* a public call begins (the previous one, if any, has returned
   /\ UNCHANGED <<prog, R, phase, bm, crashed, fixbad, probes, flagsv, proj0>>
 
 Run ==           \* up to Grain micro steps of the running call; on return the call's outcome is recorded
+  /\ UNCHANGED Family
   /\ phase \in {"ld", "probe"} /\ S.stack # <<>>
   /\ LET S1 == Iter(S, Grain) IN
      /\ S' = IF S1.stack = <<>> THEN [S1 EXCEPT !.exc = "", !.ret = Nil] ELSE S1
@@ -656,6 +680,7 @@ Run ==           \* up to Grain micro steps of the running call; on return the c
   /\ UNCHANGED <<prog, R, phase, bm, flagsv, proj0>>
 
 Finish ==        \* the schedule ends; every member alias is probed
+  /\ UNCHANGED Family
   /\ phase = "ld" /\ S.stack = <<>> /\ S.coll # <<>>
   /\ (Prop = "C05" /\ crashed = "" => NumOps("resolve") = 1)
   /\ (Prop = "C06" /\ Sched = "std" /\ crashed = "" => AllWantedLoaded /\ LastTwoResolve)
@@ -665,6 +690,7 @@ Finish ==        \* the schedule ends; every member alias is probed
   /\ UNCHANGED <<prog, R, bm, ops, crashed, fixbad, lastres, probes, flagsv>>
 
 Probe ==
+  /\ UNCHANGED Family
   /\ phase = "probe" /\ S.stack = <<>>
   /\ LET ma == MemberAliases(S) IN
      IF Len(probes) < Len(ma) /\ crashed = ""
@@ -680,7 +706,7 @@ Spec == Init /\ [][Next]_vars
 FairSpec == Spec /\ WF_vars(Run)
 
 \* hist / pout are observations; the exhaustive search identifies states by everything else
-View == <<prog, [S EXCEPT !.hist = <<>>], R, phase, bm, ops, crashed, fixbad, lastres, probes, flagsv, proj0>>
+View == <<Family, prog, [S EXCEPT !.hist = <<>>], R, phase, bm, ops, crashed, fixbad, lastres, probes, flagsv, proj0>>
 
 \* =========================================================================================================
 \* C05: the comparison with the reference  (evaluated when phase = "done")
